@@ -199,6 +199,13 @@ def do_scan_inproc(ex, idx, op):
                    "hard_to_maintain": v.hard_to_maintain, "unmaintainable": v.unmaintainable}
                for k, v in box["cb"].totals.items()}
         common.grand_totals_c07(ex, idx, obs, tot, "in-process scan_codebase #%d of this run" % (ex.cover["proc_ops"].get("scan_inproc", 0) + 1))
+    from ..world import read_bytes
+    stale = [path for path, e in box["cb"].files.items()
+             if os.path.isfile(w.p(path)) and e.checksum() not in O.checksums_of(read_bytes(w.p(path)))]
+    if stale:
+        ex.add(violation("C06", "inproc_scan_reads_current_bytes",
+                         "in-process scan #%d of this run reports %s with a checksum that is no digest of the bytes now on disk (state kept from an earlier scan)"
+                         % (ex.cover["proc_ops"].get("scan_inproc", 0) + 1, stale), idx))
     res = {}
     for path, e in box["cb"].files.items():
         got = [[m.unit_name, m.start.line, m.start.column, m.end.line, m.end.column, m.value] for m in e.measurements()]
@@ -279,6 +286,12 @@ def gen(i, R, tier, force_mode=None):
             elif r2 < 0.11 and placed:
                 p = rng.choice(sorted(placed))
                 ops.append({"op": "delete", "path": p})
+                ops.append({"op": "scan_inproc", "nonce": G.nonce(rng)})
+            elif r2 < 0.14 and placed:
+                # the same path gets new bytes between two scans of one process
+                p = rng.choice(sorted(placed))
+                ops.append({"op": "scan_inproc", "nonce": G.nonce(rng)})
+                ops.append({"op": "write", "path": p, "content": G.pick_content(rng, G.lang_of_path(p) or "py", 0.1, 0.3)})
                 ops.append({"op": "scan_inproc", "nonce": G.nonce(rng)})
         ops.append({"op": "scan_inproc", "nonce": G.nonce(rng), "live": True})
         ops.append({"op": "scan_inproc", "nonce": G.nonce(rng), "live": True})
